@@ -45,6 +45,10 @@ pub struct Ctx {
     pub rejected: u64,
 }
 
+pub fn hash_pub(j: &J) -> u64 {
+    hash_of(j)
+}
+
 fn hash_of(j: &J) -> u64 {
     let mut h = DefaultHasher::new();
     j.to_string().hash(&mut h);
